@@ -70,6 +70,33 @@ def run(rep, tier, seed, replay=None):
         rep.add_violation('chain %s: leaf measure calls %s (not a recorded finding)' % (desc, counts), {'idx': int(idx), 'cmd': 'vh c16 typical 0 %s 1' % idx})
     for idx, counts, desc, b in worse[:3]:
         rep.add_violation('chain %s: leaf measure calls %s, worse than the recorded finding %s' % (desc, counts, b), {'idx': int(idx), 'cmd': 'vh c16 typical 0 %s 1' % idx})
+    # ---- alternating chains (levels alternate between two variants of one container style; a definite cross available space far
+    # above every max-size): same baseline semantics as the typical corpus
+    abase = json.load(open(os.path.join(ROOT, 'corpus', 'C16-alternating-baseline.json')))['failing']
+    rc, out = vh(binp, ['c16', 'alternating', 0, 0, 216], timeout=300)
+    if 'DONE' not in out:
+        rep.add_broken('search', 'vh c16 alternating', out[-600:])
+    else:
+        anow = {}
+        for l in out.split('\n'):
+            m = re.match(r'FAIL (\d+) alternating counts=([\d,]+) (.*)', l)
+            if m:
+                anow[m.group(1)] = ([int(x) for x in m.group(2).split(',')], m.group(3))
+        rep.cov['alternating_chain_cases'] = 216
+        rep.cov['alternating_failing_now'] = len(anow)
+        rep.cov['alternating_failing_baseline'] = len(abase)
+        nrep = 0
+        for idx, (counts, desc) in sorted(anow.items(), key=lambda kv: int(kv[0])):
+            b = abase.get(idx)
+            if b is None:
+                what = 'chain %s: leaf measure calls %s (not a recorded finding)' % (desc, counts)
+            elif len(counts) < len(b) or (len(counts) == len(b) and counts[-1] > b[-1]):
+                what = 'chain %s: leaf measure calls %s, worse than the recorded finding %s' % (desc, counts, b)
+            else:
+                continue
+            if nrep < 3:
+                rep.add_violation(what, {'idx': int(idx), 'cmd': 'vh c16 alternating 0 %s 1' % idx})
+            nrep += 1
     # random fresh trees: 64 x node count
     n = 600 if tier == 'quick' else 6000
     rc, out, _ = sh('ulimit -v 6000000; C16_TREES_ONLY=1 %s c16 oracle %d 0 %d' % (binp, seed, n), timeout=900)
